@@ -139,7 +139,7 @@ Definition hget (h : hdr) (k : bytes) : bytes :=
 
 (* ---------- what the getters of the parsed *Msg show ---------- *)
 Record pobs := mkp { p_ct : bytes; p_cs : bytes; p_enc : bytes }.
-Record fobs := mkf { f_name : bytes; f_cid : bytes }.       (* f_cid = [] : no Content-ID option *)
+Record fobs := mkf { fo_name : bytes; fo_cid : bytes }.     (* fo_cid = [] : no Content-ID option *)
 Record mstate := mkm {
   m_charset : bytes;
   m_enc : bytes;
